@@ -135,8 +135,20 @@ func c07Filters(r *rand.Rand) []*mocrelay.ReqFilter {
 	fs := make([]*mocrelay.ReqFilter, n)
 	for i := range fs {
 		f := &mocrelay.ReqFilter{}
-		switch r.IntN(6) {
+		switch r.IntN(8) {
 		case 0:
+		case 6: // a list that is present and empty matches nothing (it is not the same as absent)
+			switch r.IntN(3) {
+			case 0:
+				f.Kinds = []int64{}
+			case 1:
+				f.IDs = []string{}
+			default:
+				f.Authors = []string{}
+			}
+		case 7:
+			f.Kinds = []int64{1, 7}
+			f.Authors = []string{}
 		case 1:
 			f.Kinds = []int64{vk.Pick(r, []int64{1, 7})}
 		case 2:
@@ -297,7 +309,7 @@ func parkedInRouter() string {
 
 func TestVerif_C07(t *testing.T) {
 	rep := vk.NewReport(t, "C07", "exploration")
-	rep.Rule = "N=2-8 concurrent connections on one RouterHandler, each running a seeded script (REQ, re-REQ of the same id, CLOSE of open and never-opened ids followed by a COUNT barrier, EVENT, COUNT, disconnect by cancel or inbound close) while a reader stamps everything it receives on one logical clock; offline, every (subscription instance, publication) pair is classified must / must-not / may by real-time order and the deliveries are checked (exactly once for must, never for must-not, at most once always, own sub ids only, publication order per publisher); registry size after disconnects; back-pressure scenarios with stalled subscribers and small buffers (publishers must finish, draining subscribers lose nothing, the stalled one gets an in-order duplicate-free subsequence of at least min(buffer, M)); runs under GOMAXPROCS 16/4/1 with verifPoint delays; non-trivial = a run with at least one must and one must-not pair; distinct = distinct interleaving signatures (operation-type sequence in clock order)"
+	rep.Rule = "N=2-8 (one run in ten: 12-24) concurrent connections on one RouterHandler, each running a seeded script (REQ, re-REQ of the same id, CLOSE of open and never-opened ids followed by a COUNT barrier, EVENT, COUNT, disconnect by cancel or inbound close) while a reader stamps everything it receives on one logical clock; offline, every (subscription instance, publication) pair is classified must / must-not / may by real-time order and the deliveries are checked (exactly once for must, never for must-not, at most once always, own sub ids only, publication order per publisher); registry size after disconnects; back-pressure scenarios with stalled subscribers and small buffers (publishers must finish, draining subscribers lose nothing, the stalled one gets an in-order duplicate-free subsequence of at least min(buffer, M)); runs under GOMAXPROCS 16/4/1 with verifPoint delays; non-trivial = a run with at least one must and one must-not pair; distinct = distinct interleaving signatures (operation-type sequence in clock order)"
 	defer rep.Finish()
 	pc := &pointCtl{sleep: true, only: "router."}
 	mocrelay.SetVerifPoint(pc.fn)
@@ -318,6 +330,10 @@ func TestVerif_C07(t *testing.T) {
 			r := vk.RNG("C07", i)
 			router := mocrelay.NewRouterHandler(4096)
 			nconn := 2 + r.IntN(7)
+			if r.IntN(10) == 0 { // "any number of concurrent connections": sometimes a dozen or two on one router
+				nconn = 12 + r.IntN(13)
+				rep.Count("runs_with_12_to_24_connections", 1)
+			}
 			w := &rWorld{}
 			conns := make([]*rConn, nconn)
 			for c := range conns {
@@ -337,7 +353,7 @@ func TestVerif_C07(t *testing.T) {
 			var evMu sync.Mutex
 			for ci, c := range conns {
 				wg.Add(1)
-				rr := vk.RNG("C07/conn", i*16+ci)
+				rr := vk.RNG("C07/conn", i*64+ci)
 				go func(c *rConn, rr *rand.Rand) {
 					defer wg.Done()
 					open := map[string]*rSub{}
